@@ -254,6 +254,65 @@ def named_axis_forms(rkey, axname):
     return rot, [(f"angax_{axname}", lambda o, a, s: o.rotate_from_angax(ANG[rkey], axname, anchor=a, start=s))]
 
 
+def _elem(ax, a):
+    c, s = np.cos(a), np.sin(a)
+    return {"x": np.array([[1, 0, 0], [0, c, -s], [0, s, c]]),
+            "y": np.array([[c, 0, s], [0, 1, 0], [-s, 0, c]]),
+            "z": np.array([[c, -s, 0], [s, c, 0], [0, 0, 1]])}[ax]
+
+
+def euler_sequences():
+    """all documented sequences: 1-3 axes, no axis twice in a row, lower case (extrinsic) and upper case (intrinsic)"""
+    seqs = []
+    for n in (1, 2, 3):
+        for t in itertools.product("xyz", repeat=n):
+            if all(t[i] != t[i + 1] for i in range(n - 1)):
+                seqs.append("".join(t))
+    return seqs + [q.upper() for q in seqs]
+
+
+EUL_ANG = np.array([[23.0, -41.0, 67.0], [-15.0, 52.0, 8.0]])  # generic, away from gimbal lock
+
+
+def euler_matrix(seq, ang_rad):
+    """first-principles composition with elementary matrices (no scipy Euler code)"""
+    m = np.eye(3)
+    for ax, a in zip(seq, ang_rad):
+        e = _elem(ax.lower(), a)
+        m = e @ m if seq.islower() else m @ e
+    return m
+
+
+def euler_forms():
+    from scipy.spatial.transform import Rotation as R
+
+    combos = []
+    for seq in euler_sequences():
+        n = len(seq)
+        for shape in ("s", "v2"):
+            deg = EUL_ANG[0, :n] if shape == "s" else EUL_ANG[:, :n]
+            if n == 1:
+                deg = deg[..., 0]  # documented: scalar or (k,) for one axis
+            rad = np.deg2rad(deg)
+            if shape == "s":
+                mats = euler_matrix(seq, np.atleast_1d(rad))
+            else:
+                mats = np.array([euler_matrix(seq, np.atleast_1d(r)) for r in rad])
+            rot = R.from_matrix(mats)
+            arg_d = deg.tolist() if np.ndim(deg) else float(deg)
+            arg_r = rad.tolist() if np.ndim(rad) else float(rad)
+            forms = [
+                (f"euler_{seq}_deg", lambda o, a, s, q=seq, v=arg_d: o.rotate_from_euler(v, q, anchor=a, start=s, degrees=True)),
+                (f"euler_{seq}_rad", lambda o, a, s, q=seq, v=arg_r: o.rotate_from_euler(v, q, anchor=a, start=s, degrees=False)),
+            ]
+            combos.append((f"eul{shape}", rot, forms))
+    return combos
+
+
+EUL_ANCHORS = ("N", "s", "v2")
+EUL_STARTS = ("auto", 1, -1)
+
+
 def forms_task(task):
     kind, P, M, starts = task
     n, viols = 0, []
@@ -263,9 +322,15 @@ def forms_task(task):
         combos.append((rkey,) + forms_for(rkey, False))
         for axn in "xyz":
             combos.append((rkey,) + named_axis_forms(rkey, axn))
+    combos += euler_forms()
     for rkey, rot, forms in combos:
+        eul = rkey.startswith("eul")
         for akey in AN:
+            if eul and akey not in EUL_ANCHORS:
+                continue
             for st in starts:
+                if eul and st not in EUL_STARTS:
+                    continue
                 ref = mk(kind, P, M)
                 ref.rotate(rot, anchor=AN[akey], start=st)
                 Pr, Mr = read(ref)
